@@ -170,6 +170,20 @@ def run(pid, tier, seed, replay=None):
         per_prog = plan.get("random", {"quick": 6, "thorough": 40})[tier]
         rnd_items = []
         for p in sel:
+            if "order" in p["tags"]:
+                # arrival-order family: every permutation (quick: a seeded sample of 240 per pair set) of the iteration in
+                # which each pair of a fixed pair set arrives
+                import itertools
+                pair_sets = [[(0, 1), (2, 3), (4, 5), (1, 2), (3, 4), (5, 0)], [(1, 0), (2, 1), (3, 2), (4, 3), (5, 4), (0, 3)],
+                             [(0, 1), (1, 2), (2, 0), (3, 4), (4, 3), (2, 3)]]
+                for ps in pair_sets:
+                    perms = list(itertools.permutations(range(len(ps))))
+                    if tier == "quick":
+                        perms = rnd.sample(perms, 240)
+                    for pm in perms:
+                        inputs = {"sched": [[pm[j], x, y] for j, (x, y) in enumerate(ps)], "never": []}
+                        rnd_items.append({"id": len(rnd_items) + 1, "pi": pidx[p["name"]], "inputs": inputs, "prog": p})
+                continue
             for k in range(per_prog):
                 rnd_items.append({"id": len(rnd_items) + 1, "pi": pidx[p["name"]], "inputs": random_inputs(p, rnd), "prog": p})
         lms, evres = semlib.eval_least_models(sel, rnd_items, work)
